@@ -277,6 +277,19 @@ EXTRA2 = {
     'C20': ' Rounds 4-5: E8.buffer-graph (every attribute written on the evaluation path from the learnable state stays connected); T20.generic-leaf (components of a network-driven GenericSpatialTransform hold the predicted tensors themselves: no new leaf, no detach/.data); T5.dtype (no float32 intermediate under float64 inputs).'}
 
 
+EXTRA3 = {
+    'C03': ' Round 6: the resize family on derived grids (chains); Cube.grid() for either flag (T9.cube-grid).',
+    'C06': ' Round 6: histories of the dense models with predicted parameters (every view serves the current prediction).',
+    'C07': ' Round 6: the expv recurrence honours the sign of the scale for every number of steps (shared T11x.expv).',
+    'C08': ' Round 6: quaternion <-> rotation vector conversions incl. half-turns (T7.quat-angle-axis); integer-typed operands of hmm / homogeneous_matmul.',
+    'C09': ' Round 6: functional condition(*args, **kwargs) (T6x.condition-copy); linear models linked with link_ (T6x.linked-linear); spline grid_() refuses grids of another domain.',
+    'C12': ' Round 6: T5.gaussian-structure; integer-typed fields with fractional spacing; spacing as tuple / list.',
+    'C13': ' Round 6: the Jacobian family (T5.jacobian) with spacing as tensor / tuple / list.',
+    'C14': ' Round 6: the transposed evaluation refuses derivative requests it does not implement.',
+    'C15': " Round 6: transformers' condition(); evaluating an inverse leaves the original alone (T15.copy-evaluation); tensor()/call/disp() write into no parameter tensor (T15.evaluation-pure).", 'C16': ' Round 6: T16.wlcc (symmetry with reused masks, repeatability, reductions, invariance, unit masks = lcc).',
+    'C20': ' Round 6: E8.update-order (the predicted-parameter buffer is refreshed before any reader in every update()).'}
+
+
 def main():
     sys.path.insert(0, HERE)
     props = [json.loads(l) for l in open(os.path.join(HERE, "properties.jsonl"))]
@@ -290,7 +303,7 @@ def main():
             na.append({"property_id": pid, "reason": reason})
             continue
         _, engine, technique, text, ref = ent
-        text = text + EXTRA.get(pid, "") + EXTRA2.get(pid, "")
+        text = text + EXTRA.get(pid, "") + EXTRA2.get(pid, "") + EXTRA3.get(pid, "")
         checks.append({
             "property_id": pid,
             "quick_cmd": f"./check {pid} --tier quick",
